@@ -181,17 +181,15 @@ def check(P: Project, R: Report) -> None:
                 R.ob("R3", "the per-request stream receives the routed message itself", bool(c.args) and ast.unparse(c.args[0]) == mp, f"{rt.module.rel}:{c.lineno}", f"sends `{ast.unparse(c.args[0]) if c.args else ''}`")
 
     # ------------------------------------------------------------------ R5: the transport hands every response to the shared stream
-    R.rule("R5", "every response the child wrote reaches the shared read stream: the stdio router delivers a message with an id on the main stream exactly once on every path, a full stream included (the routing obligation of C05-R4, read here for the waiters: a response dropped in the transport is one no caller can receive)")
-    from . import c05
+    from ..lift import lift
 
-    sub = Report(prop="C05", tier=R.tier)
-    c05.check(P, sub)
-    n5 = 0
-    for o in sub.obligations:
-        if o.rule == "R4" and (o.key.startswith("message with id") or o.key.startswith("a full main stream")):
-            n5 += 1
-            R.ob("R5", "stdio router: " + o.key, o.ok, o.where, o.detail)
-    R.need(n5 >= 1, "anchor: the routing obligations for messages with an id were not produced")
+    lift(P, R, "C05", {"R4"}, "R5",
+         "every response the child wrote reaches the shared read stream: the stdio router delivers a message with an id on the main stream exactly once on every path, a full stream included (the routing obligation of C05-R4, read here for the waiters: a response dropped in the transport is one no caller can receive)",
+         "stdio router: ", min_n=1, select=lambda o: o.key.startswith("message with id") or o.key.startswith("a full main stream"))
+    # … and a response is not lost because something else in the same read could not be parsed
+    lift(P, R, "C05", {"R3"}, "R7",
+         "a response reaches the stream whatever else the child wrote around it: in the stdio reader a line or batch member that cannot be parsed is dropped alone — no exception, break or return leaves the per-line / per-member body (the containment obligations of C05-R3, read here for the waiters: a response that follows a bad member in the same batch is one its caller never receives)",
+         "stdio reader: ", min_n=1, suffix=" — the callers whose responses come after it wait until their deadlines")
 
     # ------------------------------------------------------------------ R6: ids the library chooses cannot collide
     R.rule("R6", "two outstanding requests never share an id by the library's doing: the id send_message builds a request with is the caller's message_id, or uuid4-derived where the library chooses it (a counter or clock value can equal an id a caller picked for another outstanding request, and the id filter then hands one caller the other's response)")
